@@ -109,8 +109,8 @@ def plan(tier: str) -> dict:
             "groups_subbyte": 30 if quick else 7000,
             "groups_external": 20 if quick else 9000,
             "groups_string": 2 if quick else 250,
-            "unrounded_elements_hard(eps<=2^-30)": 60 if quick else 20000,
-            "nonnative_byte_order_constructions": 20 if quick else 5000,
+            "unrounded_elements_hard(eps<=2^-30)": 60 if quick else 7000,
+            "nonnative_byte_order_constructions": 20 if quick else 700,
         },
         "min_nontrivial": 400 if quick else 150000,
         "params": {},
@@ -381,6 +381,13 @@ def check_tables(count, with_torch: bool = True) -> list[tuple[str, str]]:
         chk(get(lambda: ir.DataType.from_numpy(sp.np_dtype)) == m, "from_numpy", name, f"from_numpy({sp.np_dtype}) = {get(lambda: ir.DataType.from_numpy(sp.np_dtype))!r}")
         if not isinstance(npdt, Exception):
             chk(get(lambda: ir.DataType.from_numpy(npdt)) == m, "from_numpy-roundtrip", name, f"from_numpy({name}.numpy()) != {name}")
+        if sp.np_dtype is not None and sp.np_dtype.byteorder == "=" and sp.np_dtype.itemsize > 1:
+            # the statement does not say whether the numpy-type table knows byte orders; what must hold is
+            # that a tensor built on such an array agrees with the others (representations */byteswapped)
+            other = get(lambda: ir.DataType.from_numpy(sp.np_dtype.newbyteorder(">" if np.little_endian else "<")))
+            count("report_only_from_numpy(non-native-byte-order)_" + (
+                "refuses:" + type(other).__name__ if isinstance(other, Exception) else
+                "maps-to-same-element-type" if other == m else "maps-to-other-element-type"))
         sn = get(m.short_name)
         chk(isinstance(sn, str) and get(lambda: ir.DataType.from_short_name(sn)) == m, "short-name-roundtrip", name, f"short_name {sn!r} does not round trip")
         if isinstance(sn, str):
